@@ -486,3 +486,69 @@ pub fn z_wrap(a: In) -> Out {
         u64::from(a[4] << (a[5] & 63)) | u64::from(a[0] - a[1]) << 32,
     ]
 }
+
+// ---------------------------------------------------------------------------------------------------------------
+// part 3: functions that panic for some inputs — the harness compares *whether* they panic with the engine's
+// panic-site obligations (MIR asserts, modelled preconditions), and the value when they do not.
+
+pub fn p_index(a: In) -> Out {
+    let i = (a[0] % 8) as usize;
+    let j = (a[1] % 8) as usize;
+    let x = a[i];
+    let s = &a[j.min(6)..];
+    [u64::from(x), s.len() as u64, u64::from(s[0]), 0, 0, 0, 0, 0]
+}
+
+pub fn p_ranges(a: In) -> Out {
+    let lo = (a[0] % 5) as usize;
+    let hi = (a[1] % 8) as usize;
+    let s = &a[lo..hi];
+    let t = &a[..=(a[2] % 7) as usize];
+    [s.len() as u64, t.len() as u64, s.iter().map(|x| u64::from(*x)).sum(), 0, 0, 0, 0, 0]
+}
+
+pub fn p_arith(a: In) -> Out {
+    let d = a[0] % 4;
+    let q = a[1] / d;
+    let r = a[2] % (a[3] % 3);
+    let b = (a[4] & 0xFF) as u8;
+    let sum = b + (a[5] & 0x7F) as u8;
+    let sh = 1u32 << (a[0] % 40);
+    [u64::from(q), u64::from(r), u64::from(sum), u64::from(sh), 0, 0, 0, 0]
+}
+
+pub fn p_unwrap(a: In) -> Out {
+    let f = a.iter().find(|x| **x > 5).unwrap();
+    let p = a.iter().position(|x| *x == 3).expect("three");
+    let c = char::from_u32(a[0] << 8).unwrap();
+    let nz = NonZeroU32::new(a[1] % 3).unwrap().get();
+    let sub = a[2].checked_sub(a[3]).unwrap();
+    [u64::from(*f), p as u64, u64::from(c as u32), u64::from(nz), u64::from(sub), 0, 0, 0]
+}
+
+pub fn p_slices(a: In) -> Out {
+    let mut b = a;
+    let k = (a[0] % 9) as usize;
+    let (l, r) = b.split_at_mut(k.min(7));
+    let ll = l.len() as u64;
+    let rl = r.len() as u64;
+    b.swap((a[1] % 7) as usize, (a[2] % 7) as usize);
+    let w = b.chunks((a[3] % 3) as usize).count() as u64;
+    [ll, rl, u64::from(b[0]), w, 0, 0, 0, 0]
+}
+
+pub fn p_asserts(a: In) -> Out {
+    assert!(a[0] != 3, "no threes");
+    debug_assert!(a[1] < 1000);
+    assert_eq!(a[2] & 1, a[3] & 1, "parity");
+    if a[4] == 77 {
+        unreachable!("seventy-seven");
+    }
+    let v = match a[5] % 4 {
+        0 => 10u64,
+        1 => 20,
+        2 => 30,
+        _ => panic!("three mod four"),
+    };
+    [v, 0, 0, 0, 0, 0, 0, 0]
+}
